@@ -34,6 +34,16 @@ def opMajorSpec (j : Json) : Except String Json := do
                   let k : String → Nat := fun a => (kl.lookup a).getD 0
                   objJ [("admissible", boolJ (I.admissibleB k)), ("spec", ratJ (I.specMajor k))]) ks)])
 
+/-- two builds of one sample (Props/C13Spec): the clauses of `MajorCorr` decided on the two real inputs of the major
+stage; `pi` pairs the catalogued variants of the two builds by RefSeq identity, `rho` their sites -/
+def opMajorCorr (j : Json) : Except String Json := do
+  let I ← jMajorInst (← field j "I")
+  let J ← jMajorInst (← field j "J")
+  let πl ← jList (jPair jMut jMut) (← field j "pi")
+  let ρl ← jList (jPair jInt jInt) (← field j "rho")
+  let cl := MajorInst.majorCorrClauses I J πl ρl
+  pure (objJ [("corr", boolJ (cl.all (·.2))), ("failing", listJ strJ ((cl.filter (!·.2)).map (·.1)))])
+
 /-- `_filter_alleles`: surviving allele names and the filtered coverage. -/
 def opMajorFilter (j : Json) : Except String Json := do
   let g ← jGeneView (← field j "gene")
